@@ -20,7 +20,8 @@ class Void(BaseType):
 
     @classmethod
     def _read_0(cls, stream: BinaryIO, context: dict[str, Any] | None = None) -> Void:
-        return [cls.__new__(cls)]
+        # A void is the zero element itself: the array ends where it starts
+        return []
 
     @classmethod
     def _write(cls, stream: BinaryIO, data: Void) -> int:
